@@ -553,6 +553,21 @@ pub async fn build_from_globs(b: &Built, files: &[IgnoreFile], from_empty: bool)
 	Ok(f)
 }
 
+/// Bulk construction, `finish()`, then additions: they are documented to be ignored silently once the builders are
+/// gone, so every verdict must stay what it was (in particular nothing that was loaded may be forgotten).
+pub async fn build_finished_then_added(b: &Built, files: &[IgnoreFile]) -> Result<IgnoreFilter, String> {
+	let mut f = IgnoreFilter::new(&b.origin, files).await.map_err(|e| e.to_string())?;
+	f.finish();
+	for file in files {
+		f.add_globs(&["zz-verif-never-there"], file.applies_in.as_ref()).map_err(|e| e.to_string())?;
+	}
+	if let Some(file) = files.first() {
+		f.add_file(file).await.map_err(|e| e.to_string())?;
+	}
+	f.add_globs(&["zz-verif-never-there-either"], None).map_err(|e| e.to_string())?;
+	Ok(f)
+}
+
 pub async fn run(args: &ShardArgs, rep: &mut Report) {
 	let mut rng = args.rng();
 	let n = if args.thorough() { 1500 } else { 140 };
@@ -776,6 +791,7 @@ async fn one_scenario(rep: &mut Report, rng: &mut Rng, sc: &Scenario, root: &Pat
 		("empty-incremental", build_from_empty(&built, &built.files).await),
 		("globs", build_from_globs(&built, &built.files, false).await),
 		("empty-globs-permuted", build_from_globs(&built, &permuted, true).await),
+		("finished-then-added", build_finished_then_added(&built, &built.files).await),
 	];
 	for (name, f) in variants {
 		let Ok(f) = f else {
